@@ -45,6 +45,12 @@ FAMILIES = {
                    effs=["1.0", "1.0", "0.5", "0.7", "1.5", "2.0", "0.9", "1.3"], nres=(2, 3), ntasks=(2, 8), team=0.45,
                    gap=[0, 0, 0, 10, 30, 45, 90, 60], dep=0.6, rleave=0.1, vac=0.05, gleave=0.1, prio=0.6, nest=0.3, contdep=0.2,
                    milestone=0.1, pin=0.1, onstart=0.1, contstart=0.1),
+    # teams inside containers that carry limits, with single-resource siblings eating odd parts of the budget
+    "teamlimits": dict(team=0.55, nest=0.85, depth=2, tdaily=0.55, tweekly=0.2, rdaily=0.15, gdaily=0.2, group=0.4, nres=(2, 3),
+                       ntasks=(3, 7), efforts=[60, 120, 180, 300, 360, 420], dur=[("w", 3), ("w", 4)], prio=0.7, dep=0.2),
+    # blocking bookings in every duration unit, also months
+    "bookings": dict(rbook=0.95, book_units=[(30.4167 * 1440, "1m"), (2 * 30.4167 * 1440, "2m"), (10080, "1w"), (1440, "1d"), (360, "6h")],
+                     efforts=[480, 960, 1920, 2400, 3000], dur=[("w", 4), ("w", 8)], ntasks=(1, 4), nres=(1, 2), dep=0.4, vac=0.1),
     "deps": dict(dupid=0.4, nest=0.6, depth=3, dep=0.8, precedes=0.3, rel=0.5, contdep=0.5, contstart=0.3, onstart=0.25, pin=0.15,
                  gap=[0, 60, 120, 480, 1440, 90, 30, 2880, 10080], ntasks=(3, 9), hours=0.2),
     "coredeps": dict(dupid=0.3, nest=0.6, depth=3, dep=0.8, precedes=0.3, rel=0.5, contdep=0.5, contstart=0.3, onstart=0.25, pin=0.15,
@@ -159,7 +165,7 @@ def gen(rng, cfg):
         if rng.random() < cfg["rbook"]:
             # a blocking booking of the resource: calendar time from a date, in every unit the grammar knows
             a = day0 + rng.randint(0, 9) * 86400 + rng.choice([0, 9, 11, 13]) * 3600
-            mins, txt = rng.choice([(120, "2h"), (360, "6h"), (90, "90min"), (1440, "1d"), (2880, "2d"), (10080, "1w"), (20160, "2w"), (30.4167 * 1440, "1m")])
+            mins, txt = rng.choice(cfg.get("book_units") or [(120, "2h"), (360, "6h"), (90, "90min"), (1440, "1d"), (2880, "2d"), (10080, "1w"), (20160, "2w"), (30.4167 * 1440, "1m")])
             r["bookings"] = [(a, mins, txt)]
         if rng.random() < cfg["rdaily"]:
             r["dailymax"] = rng.choice([60, 120, 240, 360]) if G <= 3600 else 120
